@@ -283,9 +283,9 @@ def run(ctx):
         posted, tested = AM_WINDOWS[rot % len(AM_WINDOWS)]
         camp.launch(3, (posted, tested, w, None), lines3, "K gets per process around a ring")
     # 3c. general workloads of Engine.tla; (np, (posted, tested, dynamic, dynamic_recv)); 0 = runtime default
-    configs = [(2, (0, 0, 0, 0)), (3, (0, 0, 0, 0)), (2, (1, 1, 2, 1)), (3, (1, 1, 3, 1)), (3, (2, 1, 2, 1)), (2, (4, 2, 4, 2))]
+    configs = [(2, (0, 0, 0, 0)), (3, (0, 0, 0, 0)), (2, (1, 1, 2, 1)), (3, (1, 1, 3, 1))]
     if not ctx.quick:
-        configs += [(3, (1, 1, 30, 15)), (2, (2, 2, 3, 2)), (3, (8, 2, 8, 3)), (2, (1, 1, 5, 4)), (3, (3, 3, 4, 1)), (2, (16, 4, 2, 1))]
+        configs += [(3, (2, 1, 2, 1)), (2, (4, 2, 4, 2)), (3, (1, 1, 30, 15)), (2, (2, 2, 3, 2)), (3, (8, 2, 8, 3)), (2, (1, 1, 5, 4)), (3, (3, 3, 4, 1)), (2, (16, 4, 2, 1))]
     per_run = 4 if ctx.quick else 8
     cursor = {2: 0, 3: 0}
     for np_, params in configs:
